@@ -27,9 +27,12 @@ vars == <<fvars, tvars>>
 Tr == Traces[ti]
 Ev == Tr.ev[k]
 
+\* (the decoder has two error classes; any other class after a complete, CRC-accepted frame is
+\* answered with the specification's own and the follow-up then does not match)
+DecoderErrors == {"RTCMTypeError", "RTCMMessageError"}
 OutcomeOfEv(e) ==
   IF e.then = "ret" THEN [k |-> e.pk, cls |-> ""]
-  ELSE IF e.then \in {"handler", "raise"} THEN [k |-> "err", cls |-> e.cls]
+  ELSE IF e.then \in {"handler", "raise"} /\ e.cls \in DecoderErrors THEN [k |-> "err", cls |-> e.cls]
   ELSE \* nothing observable followed: in ignore mode that is what a decode error looks like
        \* (in the other modes the spec's follow-up will not match and the event is rejected)
        [k |-> "err", cls |-> "RTCMTypeError"]
